@@ -4,7 +4,13 @@
 
    Numbers are N; every uint32 operation of the Go code that can wrap is followed by [w32].
    [int] is taken to be 64 bits wide (the Go code multiplies [int]s in two places; see
-   [int64_wrap]).  None = the Go code panics ("integer divide by zero"). *)
+   [int64_wrap]).  None = the Go code panics ("integer divide by zero").
+
+   The model follows the REPAIRED bloom.go (fix commits in the repo: NewBloomFilter reads a negative
+   bitsPerKey as 0; Generate computes the bit count in bloomBits, in 64 bits with the ceiling
+   maxBloomBits; Contains limits the bit count to bloomProbeBits).  The definitions named [..._old]
+   are the code before the repairs, kept as refutation witnesses and for the statement that nothing
+   changed where the old code neither panicked nor wrapped. *)
 From GL Require Export Base.Bytes Base.NIdx.
 From Coq Require Import ZArith.
 
@@ -54,30 +60,60 @@ Record bparams := {
   b_mincmp : N; b_minset : N; (* Generate: if nBits < 64 { nBits = 64 } *)
   b_grotr : N; b_grotl : N;   (* Generate: delta := (kh >> 17) | (kh << 15) *)
   b_ckmax : N;                (* Contains: if k > 30 { return true } *)
-  b_crotr : N; b_crotl : N    (* Contains: delta := (kh >> 17) | (kh << 15) *)
+  b_crotr : N; b_crotl : N;   (* Contains: delta := (kh >> 17) | (kh << 15) *)
+  b_maxbits : N;              (* const maxBloomBits = 1<<32 - 8 *)
+  b_probebits : N             (* const bloomProbeBits = 1 << 32 *)
 }.
 
 (* what the proofs need of the constants (re-proved for the generated ones in Gen/BloomConstsOk.v) *)
 Definition bparams_ok (p : bparams) : Prop :=
   b_grotr p = b_crotr p /\ b_grotl p = b_crotl p /\
-  1 <= b_kset p /\ b_kset p < 256 /\ b_kset p <= b_ckmax p /\ b_kcmp p <= b_ckmax p.
+  1 <= b_kset p /\ b_kset p < 256 /\ b_kset p <= b_ckmax p /\ b_kcmp p <= b_ckmax p /\
+  2 ^ 32 <= b_probebits p.
+
+(* what the totality theorems need: the minimum length is positive, minimum and ceiling stay clear
+   of the uint32 wrap of nBits + 7, 8 divides the limit of Contains *)
+Definition bparams_tot_ok (p : bparams) : Prop :=
+  1 <= b_mincmp p /\ 1 <= b_minset p /\ b_minset p < 2 ^ 32 - 7 /\
+  b_maxbits p = 2 ^ 32 - 8 /\ b_probebits p = 2 ^ 32.
 
 Definition bloom_hash (p : bparams) (key : bytes) : N := hash (b_hash p) key (b_seed p).
 
 (* Go int arithmetic wraps at 64 bits (two's complement) *)
 Definition int64_wrap (z : Z) : Z := ((z + 2 ^ 63) mod 2 ^ 64 - 2 ^ 63)%Z.
 
+(* NewBloomFilter: if bitsPerKey < 0 { bitsPerKey = 0 }; return bloomFilter(bitsPerKey) *)
+Definition bloom_new (bpk : Z) : Z := if (bpk <? 0)%Z then 0%Z else bpk.
+
 (* NewGenerator: k := uint8(f * 69 / 100); if k < 1 { k = 1 } else if k > 30 { k = 30 }
    f is an int (bloomFilter): the product wraps at 64 bits, / truncates toward zero,
    uint8() keeps the low 8 bits. *)
-Definition bloom_k (p : bparams) (bpk : Z) : N :=
+Definition bloom_k_old (p : bparams) (bpk : Z) : N :=
   let q := Z.quot (int64_wrap (bpk * Z.of_N (b_knum p))) (Z.of_N (b_kden p)) in
   let k := Z.to_N (q mod 256)%Z in
   if k <? 1 then 1 else if b_kcmp p <? k then b_kset p else k.
 
-(* Generate: nBits := uint32(len(g.keyHashes) * g.n); if nBits < 64 { nBits = 64 }
+(* bpk = the argument of NewBloomFilter *)
+Definition bloom_k (p : bparams) (bpk : Z) : N := bloom_k_old p (bloom_new bpk).
+
+(* bloomBits(nKeys, bitsPerKey int) uint32:
+     if nKeys <= 0 || bitsPerKey <= 0 { return 0 }
+     if uint64(nKeys) > maxBloomBits/uint64(bitsPerKey) { return maxBloomBits }
+     return uint32(uint64(nKeys) * uint64(bitsPerKey))          (f = bitsPerKey, an int) *)
+Definition bloom_bits (p : bparams) (nkeys : N) (f : Z) : N :=
+  if (nkeys =? 0) || (f <=? 0)%Z then 0
+  else if b_maxbits p / Z.to_N f <? nkeys then w32 (b_maxbits p)
+  else w32 ((nkeys * Z.to_N f) mod 2 ^ 64).
+
+(* Generate: nBits := bloomBits(len(g.keyHashes), g.n); if nBits < 64 { nBits = 64 }
              nBytes := (nBits + 7) / 8; nBits = nBytes * 8 *)
 Definition bloom_nbytes (p : bparams) (bpk : Z) (nkeys : N) : N :=
+  let nbits := bloom_bits p nkeys (bloom_new bpk) in
+  let nbits := if nbits <? b_mincmp p then b_minset p else nbits in
+  w32 (nbits + 7) / 8.
+
+(* before the repair: nBits := uint32(len(g.keyHashes) * g.n), g.n = the unclamped argument *)
+Definition bloom_nbytes_old (p : bparams) (bpk : Z) (nkeys : N) : N :=
   let nbits := Z.to_N ((Z.of_N nkeys * bpk) mod 2 ^ 32)%Z in
   let nbits := if nbits <? b_mincmp p then b_minset p else nbits in
   w32 (nbits + 7) / 8.
@@ -115,6 +151,19 @@ Definition bloom_generate_into (p : bparams) (bpk : Z) (hashes : list N) (alloc 
 Definition bloom_generate (p : bparams) (bpk : Z) (hashes : list N) : option bytes :=
   bloom_generate_into p bpk hashes (zeros (bloom_nbytes p bpk (lenN hashes) + 1)).
 
+(* Generate before the repairs *)
+Definition bloom_generate_old (p : bparams) (bpk : Z) (hashes : list N) : option bytes :=
+  let k := bloom_k_old p bpk in
+  let nbytes := bloom_nbytes_old p bpk (lenN hashes) in
+  let nbits := w32 (nbytes * 8) in
+  let dest := set_at (zeros (nbytes + 1)) nbytes k in
+  match hashes with
+  | [] => Some dest
+  | _ :: _ =>
+      if (nbits =? 0) && (0 <? k) then None    (* kh % nBits: integer divide by zero *)
+      else Some (fold_left (gen_add p k nbits) hashes dest)
+  end.
+
 (* for j := uint8(0); j < k; j++ { bitpos := kh % nBits
      if (uint32(filter[bitpos/8]) & (1 << (bitpos % 8))) == 0 { return false }; kh += delta } return true *)
 Fixpoint chk_probes (j : nat) (nbits delta kh : N) (f : bytes) : bool :=
@@ -126,18 +175,72 @@ Fixpoint chk_probes (j : nat) (nbits delta kh : N) (f : bytes) : bool :=
       else chk_probes j' nbits delta (w32 (kh + delta)) f
   end.
 
+(* Contains: nBits := uint64(bloomProbeBits); if uint64(nBytes) < bloomProbeBits/8 { nBits = uint64(nBytes) * 8 }
+   (no wrap: nBytes * 8 < bloomProbeBits);  bitpos := uint64(kh) % nBits *)
+Definition contains_nbits (p : bparams) (nbytes : N) : N :=
+  if nbytes <? b_probebits p / 8 then nbytes * 8 else b_probebits p.
+
+(* before the repair: nBits := uint32(nBytes * 8) *)
+Definition contains_nbits_old (nbytes : N) : N := w32 (nbytes * 8).
+
+(* Contains on a filter given by its length and its bytes as a function of the index (the harness
+   observes Contains on filters of 2^29+1 bytes and more, which no list can hold) *)
+Fixpoint chk_probes_fn (j : nat) (nbits delta kh : N) (get : N -> N) : bool :=
+  match j with
+  | O => true
+  | S j' =>
+      let bitpos := kh mod nbits in
+      if N.land (get (bitpos / 8)) (bit_mask bitpos) =? 0 then false
+      else chk_probes_fn j' nbits delta (w32 (kh + delta)) get
+  end.
+
+Definition bloom_contains_with (nbits_of : N -> N) (p : bparams) (len : N) (get : N -> N) (key : bytes) : option bool :=
+  if len <? 2 then Some false                       (* nBytes := len(filter) - 1; if nBytes < 1 *)
+  else
+    let nbytes := len - 1 in
+    let nbits := nbits_of nbytes in
+    let k := get nbytes in
+    if b_ckmax p <? k then Some true                (* reserved encodings: consider it a match *)
+    else if (nbits =? 0) && (0 <? k) then None      (* kh % nBits: integer divide by zero *)
+    else
+      let kh := bloom_hash p key in
+      Some (chk_probes_fn (N.to_nat k) nbits (rot (b_crotr p) (b_crotl p) kh) kh get).
+
+Definition bloom_contains_fn (p : bparams) := bloom_contains_with (contains_nbits p) p.
+Definition bloom_contains_fn_old (p : bparams) := bloom_contains_with contains_nbits_old p.
+
 Definition bloom_contains (p : bparams) (f key : bytes) : option bool :=
   let len := lenN f in
   if len <? 2 then Some false                       (* nBytes := len(filter) - 1; if nBytes < 1 *)
   else
     let nbytes := len - 1 in
-    let nbits := w32 (nbytes * 8) in
+    let nbits := contains_nbits p nbytes in
     let k := get_at f nbytes in
     if b_ckmax p <? k then Some true                (* reserved encodings: consider it a match *)
     else if (nbits =? 0) && (0 <? k) then None      (* kh % nBits: integer divide by zero *)
     else
       let kh := bloom_hash p key in
       Some (chk_probes (N.to_nat k) nbits (rot (b_crotr p) (b_crotl p) kh) kh f).
+
+Definition bloom_contains_old (p : bparams) (f key : bytes) : option bool :=
+  let len := lenN f in
+  if len <? 2 then Some false
+  else
+    let nbytes := len - 1 in
+    let nbits := contains_nbits_old nbytes in
+    let k := get_at f nbytes in
+    if b_ckmax p <? k then Some true
+    else if (nbits =? 0) && (0 <? k) then None
+    else
+      let kh := bloom_hash p key in
+      Some (chk_probes (N.to_nat k) nbits (rot (b_crotr p) (b_crotl p) kh) kh f).
+
+(* a filter that is zero except at the listed (index, byte) pairs *)
+Fixpoint sparse_get (l : list (N * N)) (i : N) : N :=
+  match l with
+  | [] => 0
+  | (j, b) :: l' => if i =? j then b else sparse_get l' i
+  end.
 
 (* The generator object (NewGenerator / Add / Generate) keeps the list of key hashes added since
    the last Generate, which clears it; Add appends bloom_hash key. *)
